@@ -706,7 +706,7 @@ func main() {
 	runner.Main(runner.Check{
 		Property: "C12",
 		Level:    "fault_enumeration",
-		Rule:     "close points: a dry run of each of the 12 deterministic workloads (both cancel modes) lists every internal Point it passes per role with its occurrence number and every transport write of both endpoints; one case = (workload, cancel mode, parked goroutine at that point or at that write before/after delivery, action in {Conn.Close, two concurrent Conn.Close, cancellation of the server context}). quick runs every point with Conn.Close and one seeded second action, thorough runs all three actions. Plus a Serve family: 1-4 connections with fast and blocked handlers, optionally a connection handed over at the last moment and a server goroutine parked at one of 6 points, then the Serve context is cancelled (with or without letting the last accept settle). Plus a hostile-peer family: a raw peer feeds a mutated valid session (or random bytes) to a live server / client and goes away, then the endpoint is closed. Non-trivial: the park point was reached before the close. Distinct: by case tuple.",
+		Rule:     "close points: a dry run of each of the 15 deterministic workloads (both cancel modes) lists every internal Point it passes per role with its occurrence number and every transport write of both endpoints; one case = (workload, cancel mode, parked goroutine at that point or at that write before/after delivery, action in {Conn.Close, two concurrent Conn.Close, cancellation of the server context}). quick runs every point with Conn.Close and one seeded second action, thorough runs all three actions. Plus a Serve family: 1-4 connections with fast and blocked handlers, optionally a connection handed over at the last moment and a server goroutine parked at one of 6 points, then the Serve context is cancelled (with or without letting the last accept settle). Plus a hostile-peer family: a raw peer feeds a mutated valid session (or random bytes) to a live server / client and goes away, then the endpoint is closed. Non-trivial: the park point was reached before the close. Distinct: by case tuple.",
 		Assumptions: []string{
 			"the transport lets go of pending I/O when closed (simnet does)",
 			"closing one side tears the other down through the transport, so at quiescence both transports must have been closed exactly once and no library goroutine may remain",
